@@ -564,6 +564,15 @@ func TestC12(t *testing.T) {
 			return &c, err
 		},
 		func(all []behav.Behaviour) []caseT {
+			// VERIF_REPEAT: every behaviour is replayed that many times (in different fields,
+			// under different refinements): what the cache does with the rows of an import
+			// depends on Go's map iteration order
+			if rep := behav.EnvInt("VERIF_REPEAT", 1); rep > 1 {
+				n := len(all)
+				for k := 1; k < rep; k++ {
+					all = append(all, all[:n]...)
+				}
+			}
 			// one field per group of behaviours with the same configuration
 			byCfg := map[string][]int{}
 			var keys []string
